@@ -172,6 +172,18 @@ def run(rep):
                 prefix_events.append({'ev': 'prefix', 'unit': u['unit'], 'cls': u['cls'].__name__, 'len': len(f),
                                       'k': k, 'out': out, 'need': need, 'n': n, 'head': list(f[:12])})
                 rep.case(digest([u['unit'], list(f), k]))
+    sender = []
+    for unit, cname, size, thunk in framesmod.sender_probes():
+        try:
+            wire = bytes(thunk())
+            o = 'ok'
+        except Exception as e:  # pylint: disable=broad-except
+            wire, o = b'', type(e).__name__
+        sender.append({'ev': 'sender', 'unit': unit, 'cls': cname, 'size': size, 'out': o, 'len': len(wire), 'head': list(wire[:12])})
+        rep.case(digest(['sender', unit, size]))
+        del wire
+    rep.extra['sender_probes'] = {'%s:%d' % (e['unit'], e['size']): e['out'] for e in sender}
+    traces.append(sender)
     # prefix events form traces of their own (chunks of 2000 lines)
     for i in range(0, len(prefix_events), 2000):
         traces.append(prefix_events[i:i + 2000])
@@ -183,7 +195,7 @@ def run(rep):
     for tup, ti, ei, ev in verdicts:
         clause = tup[1]
         t = traces[ti]
-        if ev['ev'] == 'prefix':
+        if ev['ev'] in ('prefix', 'sender'):
             cls, unit = ev['cls'], ev['unit']
             case = ev
         else:
